@@ -134,7 +134,7 @@ func (x *Exec) libCall(st *State, fn *ssa.Function, args []Value, pos token.Pos,
 		return
 	case "strconv.Atoi":
 		s := T(0)
-		v := App("atoi", "Int", s)
+		v := App("itoa_inv", "Int", s) // the same function the contracts call atoi (inverse of itoa on its range)
 		e := Ite(App("atoi_ok", "Bool", s), Mk("err_nil"), Mk("err_mk", App("atoi_err", "String", s)))
 		k(st, []Value{v, e})
 		return
@@ -364,6 +364,28 @@ func (x *Exec) mapsDeleteFunc(st *State, ref *Term, fn *ssa.Function, pred Value
 
 func (x *Exec) regexpModel(st *State, re *RegexpV, method string, subject *Term, sig *types.Signature) Value {
 	id := mangle(fmt.Sprintf("re_%x", hashString(re.pat)))
+	if ch := semanticsOf(re.pat); ch.sem != nil {
+		// the pattern agrees with one of the reference semantics on the whole corpus: exact model
+		x.libUsed["regexp-semantics: "+ch.note] = true
+		matched, groups := ch.sem.build(subject)
+		switch {
+		case strings.HasSuffix(method, "MatchString"):
+			if ch.sem.kind == "match" {
+				return matched
+			}
+			// an anchored pattern used with MatchString: matches iff it finds something
+			return matched
+		case strings.HasSuffix(method, "FindString") && ch.sem.kind == "submatch":
+			return Ite(matched, groups[0], StrT(""))
+		case ch.sem.kind == "submatch":
+			ss := x.w.sortOf(sig.Results().At(0).Type())
+			arr := x.w.constArray("String")
+			for i, g := range groups {
+				arr = Store(arr, IntT(int64(i)), g)
+			}
+			return Ite(matched, mkSlice(ss, arr, IntT(int64(len(groups))), False), x.w.zeroOfSort(ss, sig.Results().At(0).Type()))
+		}
+	}
 	switch {
 	case strings.HasSuffix(method, "MatchString"):
 		m := App(id+"_match", "Bool", subject)
